@@ -122,11 +122,17 @@ pub struct Ctx {
 
 thread_local! {
     static LAST_PANIC: std::cell::RefCell<String> = std::cell::RefCell::new(String::new());
+    /// true while a monitored parser call is running (its panics are observations, not harness bugs)
+    pub static IN_MONITORED_CALL: std::cell::Cell<bool> = const { std::cell::Cell::new(false) };
 }
 
 pub fn install_panic_hook() {
     std::panic::set_hook(Box::new(|info| {
         let msg = format!("{}", info);
+        if !IN_MONITORED_CALL.with(|c| c.get()) {
+            // a panic of the harness itself must be visible (the driver reports it as inconclusive)
+            eprintln!("HARNESS PANIC: {}", msg);
+        }
         LAST_PANIC.with(|p| *p.borrow_mut() = msg);
     }));
 }
@@ -137,7 +143,7 @@ impl Ctx {
         assert_eq!(HSZ, 32, "Header is expected to be 4 words");
         Ctx {
             bufs: (0..6).map(|_| Arena::new((1 << 20) + (128 << 10))).collect(),
-            hdrs: Arena::new(4 << 20),
+            hdrs: Arena::new(8 << 20),
             own: Arena::new(4096),
             fuel: true,
             collect_slots: true,
@@ -189,7 +195,9 @@ fn guarded<T>(fuel: bool, buflen: usize, backend: Backend, f: impl FnOnce() -> T
         hv::set_fuel(16 * buflen as u64 + 4096);
     }
     let a0 = alloc_count::events();
+    IN_MONITORED_CALL.with(|c| c.set(true));
     let r = catch_unwind(AssertUnwindSafe(f));
+    IN_MONITORED_CALL.with(|c| c.set(false));
     let a1 = alloc_count::events();
     hv::set_fuel(0);
     let ctr = hv::snapshot();
